@@ -1413,7 +1413,8 @@ Theorem cache_step_inv c m o c' r mf :
   CInv c m -> good_op c o -> mstep c o = (c', r, mf) -> r <> RPanic ->
   CInv c' (fold_left feed_apply (cfeed mf) m).
 Proof.
-  intros Hc Hg. destruct o as [now n|now tgt|now tgt|tgt|now tgt|now tgt|now tgt msg|now]; cbn [mstep good_op] in *.
+  intros Hc Hg. destruct o as [now n|now tgt|now tgt|tgt|now tgt|now tgt|now tgt msg|now|]; cbn [mstep good_op] in *.
+  9:{ intros E _; inversion E; subst. exact Hc. }
   - (* GnmiUpdate *)
     unfold cache_gnmi_update. destruct (n_prefix n) as [pr|] eqn:Hp.
     2:{ intros E _; inversion E; subst. exact Hc. }
